@@ -74,3 +74,56 @@ package verifspec
 //@   ensures !old(o.done) ==> called && o.done && !o.doing
 //@   panic_ensures !old(o.doing) ==> called && o.done && !o.doing
 //@   panic_ensures old(o.doing) ==> !called && !o.done
+
+// ---- Pool: a stack of the values put back; Get takes the most recent one, falls back to New, else nil (sync.Pool makes
+// no promise about which pooled value Get returns, so any choice among the pooled values is a refinement); Put(nil) is
+// ignored as in sync.
+//@ func nosync.Pool.Put
+//@ property C13
+//@   word 32
+//@   requires p != nil && len(p.store) < 2147483647
+//@   assigns p.store
+//@   ensures isnil(x) ==> len(p.store) == len(old(p.store)) && forall(k, 0, len(p.store), p.store[k] == old(p.store)[k])
+//@   ensures !isnil(x) ==> len(p.store) == len(old(p.store)) + 1 && p.store[len(p.store) - 1] == x && forall(k, 0, len(old(p.store)), p.store[k] == old(p.store)[k])
+//@ func nosync.Pool.Get
+//@ property C13
+//@   word 32
+//@   requires p != nil
+//@   assigns p.store
+//@   oncall New: assert len(p.store) == 0
+//@   ensures len(old(p.store)) > 0 ==> result == old(p.store)[len(old(p.store)) - 1] && len(p.store) == len(old(p.store)) - 1 && forall(k, 0, len(p.store), p.store[k] == old(p.store)[k])
+//@   ensures len(old(p.store)) == 0 ==> len(p.store) == 0
+//@   ensures len(old(p.store)) == 0 && isnil(p.New) ==> isnil(result)
+
+// ---- Map: the sequential behaviour of sync.Map over one Go map (created on first store).
+//@ func nosync.Map.Load
+//@ property C13
+//@   word 32
+//@   requires m != nil
+//@   assigns nothing
+//@   ensures ok == has(m.m, key)
+//@   ensures ok ==> value == m.m[key(key)]
+//@   ensures !ok ==> isnil(value)
+//@ func nosync.Map.Store
+//@ property C13
+//@   word 32
+//@   requires m != nil
+//@   assigns m.m
+//@   ensures has(m.m, key) && m.m[key(key)] == value
+//@   ensures all(k, k != key(key) ==> has(m.m, k) == has(old(m.m), k) && (has(m.m, k) ==> m.m[k] == old(m.m)[k]))
+//@ func nosync.Map.LoadOrStore
+//@ property C13
+//@   word 32
+//@   requires m != nil
+//@   assigns m.m
+//@   ensures loaded == has(old(m.m), key)
+//@   ensures loaded ==> actual == old(m.m)[key(key)] && has(m.m, key) && m.m[key(key)] == old(m.m)[key(key)]
+//@   ensures !loaded ==> actual == value && has(m.m, key) && m.m[key(key)] == value
+//@   ensures all(k, k != key(key) ==> has(m.m, k) == has(old(m.m), k) && (has(m.m, k) ==> m.m[k] == old(m.m)[k]))
+//@ func nosync.Map.Delete
+//@ property C13
+//@   word 32
+//@   requires m != nil
+//@   assigns m.m
+//@   ensures !has(m.m, key)
+//@   ensures all(k, k != key(key) ==> has(m.m, k) == has(old(m.m), k) && (has(m.m, k) ==> m.m[k] == old(m.m)[k]))
